@@ -181,24 +181,24 @@ qwt_get_law!(c01_get_u32_n3, u32, 3, 2, 16, false, 18);
 // @funcs QWaveletTree::new, QWaveletTree::rank
 qwt_rank_law!(c01_rank_u32_n2, u32, 2, 1, false, 18);
 // ---- u64 / usize: 32 levels
-// @h props=C01,C19:t tier=thorough family=M mem=5 timeout=3600 stubs=ModelRS,utils::stable_partition_of_4->fixed_array_reference(c17) role=qwt.get.u64
+// @h props=C01,C19:t tier=thorough family=M optional=yes mem=30 timeout=3600 stubs=ModelRS,utils::stable_partition_of_4->fixed_array_reference(c17) role=qwt.get.u64
 // @bound QWaveletTree<u64, ModelRS>: length 2 (32 levels): get
 // @funcs QWaveletTree::new, QWaveletTree::get
 qwt_get_law!(c01_get_u64_n2, u64, 2, 1, 32, false, 34);
-// @h props=C01 tier=thorough family=M mem=5 timeout=3600 stubs=ModelRS,utils::stable_partition_of_4->fixed_array_reference(c17) role=qwt.get.usize
+// @h props=C01 tier=thorough family=M optional=yes mem=30 timeout=3600 stubs=ModelRS,utils::stable_partition_of_4->fixed_array_reference(c17) role=qwt.get.usize
 // @bound QWaveletTree<usize, ModelRS>: length 2 (32 levels): get
 // @funcs QWaveletTree::new, QWaveletTree::get
 qwt_get_law!(c01_get_usize_n2, usize, 2, 1, 32, false, 34);
 // ---- u128: 64 levels (shifts >= 64)
-// @h props=C01,C19:t tier=thorough family=M mem=5 timeout=3600 stubs=ModelRS,utils::stable_partition_of_4->fixed_array_reference(c17) role=qwt.get.u128
+// @h props=C01,C19:t tier=thorough family=M optional=yes mem=30 timeout=3600 stubs=ModelRS,utils::stable_partition_of_4->fixed_array_reference(c17) role=qwt.get.u128
 // @bound QWaveletTree<u128, ModelRS>: length 2 (s[last] = u128::MAX, 64 levels): get - values above 2^64
 // @funcs QWaveletTree::new, QWaveletTree::get, utils::stable_partition_of_4
 qwt_get_law!(c01_get_u128_n2, u128, 2, 1, 64, false, 66);
-// @h props=C01 tier=thorough family=M mem=5 timeout=3600 stubs=ModelRS,utils::stable_partition_of_4->fixed_array_reference(c17) role=qwt.rank.u128
+// @h props=C01 tier=thorough family=M optional=yes mem=30 timeout=3600 stubs=ModelRS,utils::stable_partition_of_4->fixed_array_reference(c17) role=qwt.rank.u128
 // @bound QWaveletTree<u128, ModelRS>: length 2: rank
 // @funcs QWaveletTree::new, QWaveletTree::rank
 qwt_rank_law!(c01_rank_u128_n2, u128, 2, 1, false, 66);
-// @h props=C01 tier=thorough family=M mem=5 timeout=3600 stubs=ModelRS,utils::stable_partition_of_4->fixed_array_reference(c17) role=qwt.select.u128
+// @h props=C01 tier=thorough family=M optional=yes mem=30 timeout=3600 stubs=ModelRS,utils::stable_partition_of_4->fixed_array_reference(c17) role=qwt.select.u128
 // @bound QWaveletTree<u128, ModelRS>: length 2: select
 // @funcs QWaveletTree::new, QWaveletTree::select
 qwt_select_law!(c01_select_u128_n2, u128, 2, 1, false, 66);
@@ -333,11 +333,7 @@ fn c19_qwt_paths_u8_n3() {
     let mut w = s;
     let t1 = Tree::<u8, false>::new(&mut w[..]);
     let t2 = Tree::<u8, false>::from(s.to_vec());
-    let t3: Tree<u8, false> = s.iter().copied().collect();
     assert!(t1 == t2);
-    assert!(t2 == t3);
-    let tc = t1.clone();
-    assert!(tc == t1);
     // different sequence => different value
     let p: usize = kani::any();
     kani::assume(p < 2);
@@ -350,9 +346,27 @@ fn c19_qwt_paths_u8_n3() {
     kani::cover!(p == 1, "difference in the middle");
     core::mem::forget(t1);
     core::mem::forget(t2);
+    core::mem::forget(t4);
+}
+
+// @h props=C19 tier=quick family=M mem=18 timeout=2400 stubs=Model,stable_partition->fixed_array_reference(c17) role=qwt.paths2.u8
+// @bound length 3 (s[2] = 255): collect gives the same value as new, Clone is equal
+// @funcs from_iter, clone, eq
+#[kani::proof]
+#[kani::unwind(10)]
+#[kani::stub(crate::utils::stable_partition_of_4, part4_stub)]
+fn c19_qwt_paths2_u8_n3() {
+    let s = any_seq!(u8, 3, 2);
+    let mut w = s;
+    let t1 = Tree::<u8, false>::new(&mut w[..]);
+    let t3: Tree<u8, false> = s.iter().copied().collect();
+    assert!(t1 == t3);
+    let tc = t1.clone();
+    assert!(tc == t1);
+    kani::cover!(s[0] != s[1], "distinct symbols");
+    core::mem::forget(t1);
     core::mem::forget(t3);
     core::mem::forget(tc);
-    core::mem::forget(t4);
 }
 
 // @h props=C19 tier=quick family=M mem=18 timeout=2400 stubs=ModelRS,utils::stable_partition_of_4->fixed_array_reference(c17) role=qwt.widths
@@ -423,3 +437,12 @@ fn c18_purity_qwt() {
     kani::cover!(a1.is_some() && b1.is_some() && d1.is_some(), "queries that answer");
     core::mem::forget(t);
 }
+
+// @h props=C01:t,C19:t tier=thorough family=M optional=yes mem=30 timeout=3600 stubs=ModelRS,utils::stable_partition_of_4->fixed_array_reference(c17) role=qwt.get.u128.n1
+// @bound QWaveletTree<u128, ModelRS>: the one-element sequence [u128::MAX] (64 levels, shifts >= 64): get for every index
+// @funcs QWaveletTree::new, QWaveletTree::get, QWaveletTree::get_unchecked
+qwt_get_law!(c01_get_u128_n1, u128, 1, 0, 64, false, 66);
+// @h props=C01:t,C19:t tier=thorough family=M optional=yes mem=30 timeout=3600 stubs=ModelRS,utils::stable_partition_of_4->fixed_array_reference(c17) role=qwt.concrete.u128_wide
+// @bound concrete u128 sequence [5, 2^64+5] (33 levels: symbols above 2^64, shifts >= 64), queries symbolic over the machine range: get, rank, rank_prefetch, select
+// @funcs QWaveletTree::new, QWaveletTree::get, QWaveletTree::rank, QWaveletTree::select
+qwt_concrete!(c01_concrete_u128_wide, u128, [5, (1u128 << 64) + 5], 2, 33, 36);
